@@ -11,7 +11,8 @@ operands" one notion instead of four unrelated tables:
   with 3 and 4 operands equal the nested 2-operand forms, and the 2-operand forms are commutative and
   associative, on all eight values (complete enumeration in the kernel, `decide +kernel`, lifted by the
   `*_spec` theorems; no sampling);
-* the same for the complete tables of the real array operators (`mv_*`), via `bp8_eq_mv_*`.
+* `spec*_cons`, `bp8_*_fold` — for operand lists of ANY length the documented algebra is the right fold of the recorded
+  REAL 2-operand expression (induction over the list; the code's 1..4-operand forms are instances: `bp8_*4_is_fold`).
 
 A change to `logic.py` that makes one arity disagree with the others (a 3-operand form that is not the fold
 of the 2-operand one) breaks `*_nested` even when each arity for itself still had a plausible table. -/
@@ -134,6 +135,150 @@ theorem bp8_xor_assoc (a b c : V3) :
   rw [h1, h2, bp8_xor2_spec, bp8_xor2_spec, ← specXor3_nested,
     specXor_perm (List.Perm.swap (specXor [b, c]) a []), ← specXor3_nested]
   exact specXor_perm (List.perm_append_comm (l₁ := [a]) (l₂ := [b, c]))
+
+/-! ## any number of operands: the documented algebra is the fold of the 2-operand operator
+
+`spec*_cons` (lists of ANY length, induction): putting one more operand in front equals the 2-operand operator applied to
+that operand and the result for the rest.  With `bp8_*2_spec` this gives `bp8_*_fold`: for every operand list the documented
+algebra equals the right fold of the recorded REAL 2-operand bit-parallel expression — so the 1..4-operand forms of the code
+(`bp8_*k_spec`) are instances of one unbounded family, not four tables. -/
+theorem and_key (xs : List V3) (h0 : xs.any V3.isZero = false) (hu : xs.any V3.unk = false) :
+    ((xs.all (·.p0) || xs.any (·.p2)) = true) ∧ ((xs.all (·.p1) || xs.any (·.p2)) = true) ∧
+    (((xs.all (·.p0) ^^ xs.all (·.p1)) && !xs.any (·.p2)) = false) := by
+  induction xs with
+  | nil => simp
+  | cons x xs ih =>
+    simp only [List.any_cons, Bool.or_eq_false_iff] at h0 hu
+    obtain ⟨i1, i2, i3⟩ := ih h0.2 hu.2
+    rcases x with ⟨a, b, c⟩
+    have hz := h0.1; have hk := hu.1
+    simp only [V3.isZero, V3.unk] at hz hk
+    simp only [List.all_cons, List.any_cons]
+    revert i1 i2 i3 hz hk
+    cases a <;> cases b <;> cases c <;> cases xs.all (·.p0) <;> cases xs.all (·.p1) <;> cases xs.any (·.p2) <;> simp
+
+theorem specAnd_cons (x : V3) (xs : List V3) : specAnd (x :: xs) = specAnd [x, specAnd xs] := by
+  by_cases h0 : xs.any V3.isZero = true
+  · have : specAnd xs = V3.zero := by simp [specAnd, h0]
+    rw [this]; simp [specAnd, h0, V3.isZero, V3.zero]
+  · have h0' : xs.any V3.isZero = false := by simpa using h0
+    by_cases hu : xs.any V3.unk = true
+    · have : specAnd xs = V3.unknown := by simp [specAnd, h0', hu]
+      rw [this]; rcases x with ⟨a, b, c⟩
+      simp only [specAnd, List.any_cons, h0', hu, List.any_nil, V3.isZero, V3.unk, V3.unknown, V3.zero]
+      cases a <;> cases b <;> cases c <;> simp
+    · have hu' : xs.any V3.unk = false := by simpa using hu
+      obtain ⟨i1, i2, i3⟩ := and_key xs h0' hu'
+      have e : specAnd xs = ⟨xs.all (·.p0), xs.all (·.p1), xs.any (·.p2)⟩ := by simp [specAnd, h0', hu']
+      rw [e]; rcases x with ⟨a, b, c⟩
+      simp only [specAnd, List.any_cons, List.all_cons, h0', hu', List.any_nil, List.all_nil, V3.isZero, V3.unk, V3.unknown, V3.zero]
+      revert i1 i2 i3
+      cases a <;> cases b <;> cases c <;> cases xs.all (·.p0) <;> cases xs.all (·.p1) <;> cases xs.any (·.p2) <;> simp
+
+theorem or_key (xs : List V3) (h1 : xs.any V3.isOne = false) (hu : xs.any V3.unk = false) :
+    ((xs.any (·.p0) && xs.any (·.p1) && !xs.any (·.p2)) = false) ∧
+    (((xs.any (·.p0) ^^ xs.any (·.p1)) && !xs.any (·.p2)) = false) := by
+  induction xs with
+  | nil => simp
+  | cons x xs ih =>
+    simp only [List.any_cons, Bool.or_eq_false_iff] at h1 hu
+    obtain ⟨i1, i2⟩ := ih h1.2 hu.2
+    rcases x with ⟨a, b, c⟩
+    have hz := h1.1; have hk := hu.1
+    simp only [V3.isOne, V3.unk] at hz hk
+    simp only [List.any_cons]
+    revert i1 i2 hz hk
+    cases a <;> cases b <;> cases c <;> cases xs.any (·.p0) <;> cases xs.any (·.p1) <;> cases xs.any (·.p2) <;> simp
+
+theorem specOr_cons (x : V3) (xs : List V3) : specOr (x :: xs) = specOr [x, specOr xs] := by
+  by_cases h0 : xs.any V3.isOne = true
+  · have : specOr xs = V3.one := by simp [specOr, h0]
+    rw [this]; simp [specOr, h0, V3.isOne, V3.one]
+  · have h0' : xs.any V3.isOne = false := by simpa using h0
+    by_cases hu : xs.any V3.unk = true
+    · have : specOr xs = V3.unknown := by simp [specOr, h0', hu]
+      rw [this]; rcases x with ⟨a, b, c⟩
+      simp only [specOr, List.any_cons, h0', hu, List.any_nil, V3.isOne, V3.unk, V3.unknown, V3.one]
+      cases a <;> cases b <;> cases c <;> simp
+    · have hu' : xs.any V3.unk = false := by simpa using hu
+      obtain ⟨i1, i2⟩ := or_key xs h0' hu'
+      have e : specOr xs = ⟨xs.any (·.p0), xs.any (·.p1), xs.any (·.p2)⟩ := by simp [specOr, h0', hu']
+      rw [e]; rcases x with ⟨a, b, c⟩
+      simp only [specOr, List.any_cons, h0', hu', List.any_nil, V3.isOne, V3.unk, V3.unknown, V3.one]
+      revert i1 i2
+      cases a <;> cases b <;> cases c <;> cases xs.any (·.p0) <;> cases xs.any (·.p1) <;> cases xs.any (·.p2) <;> simp
+
+theorem foldl_xor_acc (f : V3 → Bool) (xs : List V3) (acc : Bool) :
+    xs.foldl (fun a v => a ^^ f v) acc = (acc ^^ xs.foldl (fun a v => a ^^ f v) false) := by
+  induction xs generalizing acc with
+  | nil => simp
+  | cons x xs ih => simp only [List.foldl_cons]; rw [ih (acc ^^ f x), ih (false ^^ f x)]; cases acc <;> cases f x <;> simp
+
+theorem xor_key (xs : List V3) (hu : xs.any V3.unk = false) :
+    (((xs.foldl (fun a v => a ^^ v.p0) false ^^ xs.foldl (fun a v => a ^^ v.p1) false) && !xs.any (·.p2)) = false) := by
+  induction xs with
+  | nil => simp
+  | cons x xs ih =>
+    simp only [List.any_cons, Bool.or_eq_false_iff] at hu
+    have i1 := ih hu.2
+    rcases x with ⟨a, b, c⟩
+    have hk := hu.1
+    simp only [V3.unk] at hk
+    simp only [List.any_cons, List.foldl_cons]
+    rw [foldl_xor_acc (·.p0) xs, foldl_xor_acc (·.p1) xs]
+    revert i1 hk
+    cases a <;> cases b <;> cases c <;> cases xs.foldl (fun a v => a ^^ v.p0) false <;>
+      cases xs.foldl (fun a v => a ^^ v.p1) false <;> cases xs.any (·.p2) <;> simp
+
+theorem specXor_cons (x : V3) (xs : List V3) : specXor (x :: xs) = specXor [x, specXor xs] := by
+  by_cases hu : xs.any V3.unk = true
+  · have : specXor xs = V3.unknown := by simp [specXor, hu]
+    rw [this]; rcases x with ⟨a, b, c⟩
+    simp only [specXor, List.any_cons, hu, List.any_nil, V3.unk, V3.unknown]
+    cases a <;> cases b <;> cases c <;> simp
+  · have hu' : xs.any V3.unk = false := by simpa using hu
+    have i1 := xor_key xs hu'
+    have e : specXor xs = ⟨xs.foldl (fun a v => a ^^ v.p0) false, xs.foldl (fun a v => a ^^ v.p1) false, xs.any (·.p2)⟩ := by
+      simp [specXor, hu']
+    rw [e]; rcases x with ⟨a, b, c⟩
+    simp only [specXor, List.any_cons, hu', List.any_nil, List.foldl_cons, List.foldl_nil, V3.unk, V3.unknown]
+    rw [foldl_xor_acc (·.p0) xs, foldl_xor_acc (·.p1) xs]
+    revert i1
+    cases a <;> cases b <;> cases c <;> cases xs.foldl (fun a v => a ^^ v.p0) false <;>
+      cases xs.foldl (fun a v => a ^^ v.p1) false <;> cases xs.any (·.p2) <;> simp
+
+theorem bp8_and_fold (xs : List V3) :
+    specAnd xs = xs.foldr (fun x acc => (bp8v_and2 (.ofV3 x) (.ofV3 acc)).toV3) V3.one := by
+  induction xs with
+  | nil => rfl
+  | cons x xs ih => rw [specAnd_cons, List.foldr_cons, ← ih, bp8_and2_spec]
+theorem bp8_or_fold (xs : List V3) :
+    specOr xs = xs.foldr (fun x acc => (bp8v_or2 (.ofV3 x) (.ofV3 acc)).toV3) V3.zero := by
+  induction xs with
+  | nil => rfl
+  | cons x xs ih => rw [specOr_cons, List.foldr_cons, ← ih, bp8_or2_spec]
+theorem bp8_xor_fold (xs : List V3) :
+    specXor xs = xs.foldr (fun x acc => (bp8v_xor2 (.ofV3 x) (.ofV3 acc)).toV3) V3.zero := by
+  induction xs with
+  | nil => rfl
+  | cons x xs ih => rw [specXor_cons, List.foldr_cons, ← ih, bp8_xor2_spec]
+
+/-- the real 4-operand expression is the fold of the real 2-operand one (instance of `bp8_and_fold`) -/
+theorem bp8_and4_is_fold (a b c d : V3) :
+    (bp8v_and4 (.ofV3 a) (.ofV3 b) (.ofV3 c) (.ofV3 d)).toV3 =
+      [a, b, c, d].foldr (fun x acc => (bp8v_and2 (.ofV3 x) (.ofV3 acc)).toV3) V3.one := by
+  rw [bp8_and4_spec, bp8_and_fold]
+theorem bp8_or4_is_fold (a b c d : V3) :
+    (bp8v_or4 (.ofV3 a) (.ofV3 b) (.ofV3 c) (.ofV3 d)).toV3 =
+      [a, b, c, d].foldr (fun x acc => (bp8v_or2 (.ofV3 x) (.ofV3 acc)).toV3) V3.zero := by
+  rw [bp8_or4_spec, bp8_or_fold]
+theorem bp8_xor4_is_fold (a b c d : V3) :
+    (bp8v_xor4 (.ofV3 a) (.ofV3 b) (.ofV3 c) (.ofV3 d)).toV3 =
+      [a, b, c, d].foldr (fun x acc => (bp8v_xor2 (.ofV3 x) (.ofV3 acc)).toV3) V3.zero := by
+  rw [bp8_xor4_spec, bp8_xor_fold]
+
+/-- non-vacuity: a five-operand list (longer than any form the code offers) -/
+example : specXor [V3.one, ⟨true, false, true⟩, V3.zero, V3.one, ⟨false, true, true⟩] = ⟨true, true, true⟩ := by decide
 
 /-- non-vacuity / sanity: RISE and FALL give a positive pulse under AND in either order and grouping -/
 example : specAnd [⟨true, false, true⟩, ⟨false, true, true⟩, V3.one] = ⟨false, false, true⟩ := by decide
